@@ -141,6 +141,35 @@ pub fn run(rep: &mut Report, backend: Bk, thorough: bool) {
                 r2.original_hash[bit / 8] ^= 1 << (bit % 8);
                 variants.push(("content-hash", r2));
             }
+            // the same at the level of the announced tag: every single-bit change of the scheme-version value, and white
+            // space around it, must not lead to the plaintext (refused by the parser or by decryption)
+            if *n <= 17 {
+                let tag = with_mdk!(l.a, m => m.media_manager(l.gid.clone()).create_imeta_tag(&up, "https://b.example/t"));
+                let vals: Vec<String> = tag.clone().to_vec();
+                let vcur = vals.iter().find_map(|v| v.strip_prefix("v ").map(|x| x.to_string())).unwrap_or_default();
+                let mut spellings: Vec<String> = Vec::new();
+                for bit in 0..vcur.len() * 8 {
+                    let mut b = vcur.clone().into_bytes();
+                    b[bit / 8] ^= 1 << (bit % 8);
+                    if let Ok(sx) = String::from_utf8(b) {
+                        spellings.push(sx);
+                    }
+                }
+                spellings.push(format!("{vcur} "));
+                spellings.push(format!(" {vcur}"));
+                spellings.push(format!("{vcur}\t"));
+                spellings.push(vcur.to_uppercase());
+                for sp in spellings {
+                    let v2: Vec<String> = vals.iter().map(|v| if v.starts_with("v ") { format!("v {sp}") } else { v.clone() }).collect();
+                    let Ok(t2) = nostr::Tag::parse(v2) else { continue };
+                    rep.case(&format!("tag-scheme-version|{mime}|{n}|{}", sp.escape_default()));
+                    rep.evaluations += 1;
+                    let got = with_mdk!(l.b, m => m.media_manager(l.gid.clone()).parse_imeta_tag(&t2)).ok().and_then(|r| dec(&l.b, &l.gid, ct, &r).ok());
+                    if got.is_some() {
+                        rep.finding("C17|changed-scheme-version-in-tag-accepted".into(), format!("the announced scheme version changed to {sp:?} still decrypts"), json!({"mime": mime, "size": n, "spelling": sp}));
+                    }
+                }
+            }
             for (label, r2) in variants {
                 rep.case(&format!("field|{label}|{mime}|{n}"));
                 if let Ok(p) = dec(&l.b, &l.gid, ct, &r2) {
